@@ -127,7 +127,7 @@ func newPairSpace(tier string) *pairSpace {
 	ps := &pairSpace{u: space.StdUniverse()}
 	seen := map[string]bool{}
 	u := ps.u
-	tiny := []*space.Ty{space.B("int"), space.N(u.Get("in", "P")), space.N(u.Get("out", "P")), space.Any()}
+	tiny := []*space.Ty{space.B("int"), space.N(u.Get("in", "P")), space.N(u.Get("out", "P")), space.Any(), space.St()}
 	switch tier {
 	case "thorough":
 		ps.k = 2
